@@ -774,8 +774,32 @@ def finish_dispatch_args(ck, first_args):
 
 # ----------------------------------------------------- E: unknown-key reporting
 def rule_E(ck, units):
-    ck.rule('E.unknown-reported', 'in every check_params overload each entry of the tree reaches AMGCL_PARAM_UNKNOWN under no condition other than the name being absent from the accepted sets', 2)
+    ck.rule('E.unknown-reported', 'in every check_params overload each entry of the tree reaches AMGCL_PARAM_UNKNOWN under no condition other than the name being absent from the accepted sets; detail::empty_params(ptree) reports every entry', 3)
     done = set()
+    # components without parameters: detail::empty_params(ptree) reports EVERY entry (nothing is accepted)
+    edone = False
+    for u in units.values():
+        for f in u.funcs:
+            if f.q != 'amgcl::detail::empty_params::empty_params' or len(f.params) != 1 or f.body is None or edone:
+                continue
+            if 'ptree' not in u.type(f.decl(f.params[0]).get('ct')):
+                continue
+            edone = True
+            loops = [n for n in f.nodes.values() if n['k'] == 'rfor' and is_ref_to(n['range'], f.params[0])]
+            det = ''
+            if len(loops) != 1:
+                det = 'the constructor from a property tree does not loop over its entries: unknown keys given to a parameter-less component are dropped silently'
+            else:
+                lv = loops[0]['var']['d']
+                acts = [n for n in walk(loops[0]['b']) if n['k'] in ('bin', 'call', 'opcall', 'throw') and any(x['k'] == 'ref' and x['d'] == lv for x in walk(n))]
+                cond = [a for n in acts for a in f.ancestors(n) if a['k'] in ('if', 'cond', 'switch') and a['i'] > loops[0]['i']]
+                if not acts:
+                    det = 'the loop over the tree has no action that reports the entry'
+                elif cond:
+                    det = 'the entry is reported only under a condition (%s)' % show(cond[0].get('c'))[:60]
+            ck.ob('E.unknown-reported', 'amgcl::detail::empty_params(ptree)', f.where(), not det, det)
+    if not edone:
+        ck.brk('E.unknown-reported: detail::empty_params(const ptree&) not found')
     for u in units.values():
         for f in u.funcs:
             if f.q != 'amgcl::check_params' or f.line in done:
